@@ -193,6 +193,8 @@ fn format_expression_internal(
     context: ExpressionContext,
     shape: Shape,
 ) -> Expression {
+    #[cfg(feature = "verif-hooks")]
+    crate::verif_hooks::tick();
     match expression {
         Expression::Function(anonymous_function) => {
             Expression::Function(format_anonymous_function(ctx, anonymous_function, shape))
